@@ -509,9 +509,17 @@ def const_str(n):
     raise Unknown("co-domain value `%s` is not a string literal" % show(n, 60))
 
 
+DECL_HELPERS = {}  # private zero-argument functions of data_type/function.rs (name -> body): a table of values factored out of a co-domain
+
+
 def elems_of(n):
     if n["k"] == "array":
         return n["elems"]
+    if n["k"] == "call" and not n["args"] and n["f"]["k"] == "path" and len(n["f"]["segs"]) == 1 and n["f"]["segs"][0] in DECL_HELPERS:
+        b = DECL_HELPERS[n["f"]["segs"][0]]
+        while b["k"] == "block" and len(b["stmts"]) == 1 and b["stmts"][0]["k"] == "expr":
+            b = b["stmts"][0]["e"]
+        return elems_of(b)
     if n["k"] == "macro" and n["name"] == "vec" and "args" in n:
         return n["args"]
     if n["k"] == "ref":
